@@ -1,3 +1,4 @@
+import json
 """Shared helpers and rules used by several properties."""
 import re
 
@@ -406,6 +407,34 @@ def in_variant_region(body, crate, bb, adt, allowed, place_pred=None):
     return False
 
 
+def cond_slices(b, sb, depth=2):
+    """Slices that decide the switch at block sb: its own operand's slice, plus - when the operand is a flag whose definitions are
+    constants chosen by earlier tests (`let m = matches!(x, P if g)`, `let mut f = false; if c { f = true }`) - the slices of the
+    switches those constant stores are control-dependent on."""
+    t = b.term(sb)
+    out = [b.slice_switch(sb)]
+    l = operand_local(t["op"]) if t and t.get("k") == "switch" else None
+    if l is None or t["op"]["place"]["p"] or depth <= 0:
+        return out
+    seen = set()
+    locs, work = set(), [l]
+    while work:                      # the flag through plain copies (`_20 = copy _4; switchInt(_20)`)
+        x_ = work.pop()
+        if x_ in locs or len(locs) > 8:
+            continue
+        locs.add(x_)
+        for d in b.defs().get(x_, ()):
+            if d["kind"] == "assign" and not d["lhs"]["p"] and d["rv"]["k"] == "use" and d["rv"]["op"].get("k") in ("copy", "move") and not d["rv"]["op"]["place"]["p"]:
+                work.append(d["rv"]["op"]["place"]["l"])
+    for d in [d_ for x_ in sorted(locs) for d_ in b.defs().get(x_, ())]:
+        if d["kind"] == "assign" and not d["lhs"]["p"] and d["rv"]["k"] == "use" and d["rv"]["op"].get("k") == "const" and isinstance(d["rv"]["op"].get("v"), bool):
+            for sb2, t2 in b.switches():
+                if sb2 != sb and sb2 not in seen and any(b.edge_dominates((sb2, x), d["bb"]) for x in b.succ(sb2)):
+                    seen.add(sb2)
+                    out.extend(cond_slices(b, sb2, depth - 1))
+    return out
+
+
 def deep_has_call(crate, sl, *pats, depth=3):
     """Slice contains a call matching pats, directly or inside a closure / fn item that flows into it."""
     if sl.has_call(*pats):
@@ -416,6 +445,12 @@ def deep_has_call(crate, sl, *pats, depth=3):
                 return True
         if a[0] == "fn" and any(re.fullmatch(p, a[1]) for p in pats):
             return True
+    # ... or inside a crate function the slice calls directly (`ticker.is_running()` instead of `.map_or(false, Ticker::is_running)`)
+    for c in sl.calls:
+        if c.callee.get("local"):
+            for tn in crate.resolve_targets(c):
+                if tn in crate.bodies and _body_calls_deep(crate, crate.bodies[tn], pats, depth - 1):
+                    return True
     return False
 
 
@@ -424,6 +459,11 @@ def _body_calls_deep(crate, b, pats, depth):
         return True
     if depth <= 0:
         return False
+    for c in b.calls():
+        if c.callee.get("local") and not c.callee.get("trait"):
+            for tn in crate.resolve_targets(c):
+                if tn in crate.bodies and tn != b.name and _body_calls_deep(crate, crate.bodies[tn], pats, depth - 1):
+                    return True
     for i, j, s in b.assigns():
         rv = s["rv"]
         if rv["k"] == "agg" and rv["ak"] == "closure" and rv["def"] in crate.bodies:
@@ -457,6 +497,10 @@ def _bool_vals(body, l, at, R, depth):
                 vals |= _bool_vals(body, o["place"]["l"], d["bb"], R, depth + 1)
             else:
                 vals.add("?")
+        elif d["kind"] == "assign" and d["rv"]["k"] == "un" and d["rv"].get("op") == "Not" and not d["lhs"]["p"] \
+                and operand_local(d["rv"].get("a")) is not None and not d["rv"]["a"]["place"]["p"] \
+                and body.locals[operand_local(d["rv"]["a"])]["ty"] == "bool":
+            vals |= {(not v) if isinstance(v, bool) else v for v in _bool_vals(body, operand_local(d["rv"]["a"]), d["bb"], R, depth + 1)}
         else:
             vals.add("?")
     return vals
@@ -615,6 +659,26 @@ def _int_consts(body, op, at, R):
     return out or None
 
 
+def _deref_origins(body, pl):
+    """For a place `*r` (r a reference local with one definition chain of plain copies ending in `&P`): [P]."""
+    if pl.get("p") != ["*"]:
+        return []
+    l = pl["l"]
+    for _ in range(6):
+        ds = [d for d in body.defs().get(l, ()) if d["kind"] != "param"]
+        kinds = {json.dumps(d["rv"], sort_keys=True) for d in ds if d["kind"] == "assign" and not d["lhs"]["p"]}
+        if not ds or len(kinds) != 1 or any(d["kind"] != "assign" or d["lhs"]["p"] for d in ds):
+            return []
+        rv = ds[0]["rv"]
+        if rv["k"] == "ref":
+            return [rv["place"]]
+        if rv["k"] == "use" and rv["op"].get("k") in ("copy", "move") and not rv["op"]["place"]["p"]:
+            l = rv["op"]["place"]["l"]
+            continue
+        return []
+    return []
+
+
 def variant_reach(body, crate, adt, V, place_pred=None, want_avoid=False):
     """Blocks reachable when the inspected value of enum `adt` is the variant V: every discriminant switch on such a
     place keeps only the edges whose variant set contains V, and boolean flags whose reaching definitions (inside the
@@ -623,7 +687,7 @@ def variant_reach(body, crate, adt, V, place_pred=None, want_avoid=False):
     for sb, t, pl, d in discr_switches(body):
         if head_of_type(pl.get("ty", "")) != adt:
             continue
-        if place_pred and not place_pred(pl):
+        if place_pred and not place_pred(pl) and not any(place_pred(o) for o in _deref_origins(body, pl)):
             continue
         for tgt, vs in edge_variants(crate, t, adt).items():
             if V not in vs:
